@@ -40,6 +40,10 @@ def run(chk: Check) -> None:
     repo = chk.repo
     cfgc = repo.cls("CFG")
     abc = AbcModel()
+    from .c16 import _delegation_table
+    sub = chk.sub()
+    _delegation_table(sub)
+    chk.adopt(sub, lambda o: o.construct.startswith("CFG.") and "operator-from-mixin" in o.construct, "R11.3")
 
     # R11.1 -----------------------------------------------------------------
     n_uses = 0
